@@ -246,4 +246,7 @@ def run(ctx):
         r2_limit_path(ctx, cfg)
         r3_paused_state(ctx, cfg)
         r4_stop_decision(ctx, cfg)
+        # (R6) a paused runtime schedules relative to the time it reports, and files events under exactly the instant given (shared with C02.R7)
+        from .C02 import r7_relative_scheduling
+        r7_relative_scheduling(ctx, cfg, rule='C10.R6')
     ctx.cfg = 'A'
